@@ -118,6 +118,39 @@ example : ∃ (s : St), s.sinceLast ≤ s.intervalInstr ∧ 0 < s.intervalInstr 
   ⟨{ lastCheck := 0, deadline := 5, intervalSeconds := 0, intervalInstr := 3, sinceLast := 1, limit := 5 },
     by decide⟩
 
+/-! ## 2b. every instruction is a polling point -/
+
+/-- With the code's polling policy the entry loop performs exactly one check per instruction,
+whatever the instructions are: the instruction stream only matters through its length. This is the
+obligation the cost hypothesis of `bounded_slack` (`Costs`: time between consecutive CHECKS) rests
+on — the time between two checks is the cost of ONE instruction. -/
+theorem every_instruction_polls (F : TOps) (clk : Nat → Nat) (ks : List InstrKind) :
+    ∀ (s : St) (i : Nat), runInstrs F pollsEvery clk ks s i = firstTimeout F clk ks.length s i := by
+  induction ks with
+  | nil => intro s i; rfl
+  | cons k ks ih =>
+    intro s i
+    simp only [runInstrs, pollsEvery, firstTimeout, List.length_cons, if_true]
+    split <;> simp_all
+
+/-- The negation for a sparser policy (polling only before backwards jumps and call instructions,
+"straight-line code always ends"): a stream of operator instructions whose overloads push frames —
+self-recursion through `@negate`, `@<`, `@==`, `@index`, … — is never interrupted, whatever the
+clock says. The harness runs exactly these streams (self-recursion spins, depth-capped). -/
+theorem sparse_polling_never_detects (F : TOps) (clk : Nat → Nat) (n : Nat) :
+    ∀ (s : St) (i : Nat),
+      runInstrs F (fun k => k == .jumpBack || k == .call) clk (List.replicate n .opPush) s i = none := by
+  induction n with
+  | zero => intro s i; rfl
+  | succ n ih => intro s i; simp [List.replicate_succ, runInstrs, ih]
+
+/-- … while the code's policy reports the timeout on the same stream as soon as a check reads a
+clock value at or past the deadline (here: at once, with interval 0) -/
+example : runInstrs ⟨fun _ => 0, fun _ _ => 0, fun _ _ => 0, fun _ _ => 0, fun _ _ => false,
+    fun _ => false, fun _ => 0⟩ pollsEvery (fun _ => 9) [.opPush, .opPush]
+    { lastCheck := 0, deadline := 5, intervalSeconds := 0, intervalInstr := 0, sinceLast := 0, limit := 5 } 0
+    = some 0 := by decide
+
 /-! ## 3. polling never stops: a run whose clock passes the deadline reports the timeout -/
 
 /-- For every float implementation (no assumption at all on the interval arithmetic): if from
